@@ -249,6 +249,18 @@ Fixpoint payload_self (t : gty) (v : val) {struct t} : bool :=
   | _, _ => true
   end.
 
+(* the interfaces a case claims for a dynamic type that zap.Any lists must be those of the
+   translator's implements table (monitor of the table the Any theorem relies on) *)
+Definition has (impls : list iface) (i : iface) : bool := existsb (iface_eqb i) impls.
+Definition is_iface (t : gty) : bool := match t with TIface _ => true | _ => false end.
+Definition listedb (ty : gty) : bool :=
+  existsb (fun e => negb (is_iface (fst e)) && gty_eqb (fst e) ty) (t_any T).
+Definition table_impl (ty : gty) (i : iface) : bool :=
+  existsb (fun q => gty_eqb (fst q) ty && iface_eqb (snd q) i) (t_implements T).
+Definition four : list iface := [IObjM; IArrM; IError; IStringer].
+Definition consistentb (ty : gty) (impls : list iface) : bool :=
+  negb (listedb ty) || forallb (fun i => Bool.eqb (has impls i) (table_impl ty i)) four.
+
 (* what the constructors put into Field.Interface, per Equals class: the facts Equals relies on *)
 Definition fwfb (f : field) : bool :=
   match eq_class T f with
@@ -414,6 +426,7 @@ Definition spec (i o : sx) : bool :=
       let tc := ss (sx_b (sx_nth i 5)) in
       let want := spec_any ty impls in
       (* Any delivers what the typed constructor of the dynamic type is specified to deliver ... *)
+      consistentb ty impls &&
       calls_ok (sx_nth o 1) (expected [] want (param_of want) k v) &&
       (* ... and, when that constructor is the one the value was built for, the two Fields are
          identical and compare equal *)
@@ -432,16 +445,28 @@ Definition spec (i o : sx) : bool :=
   end.
 
 (* well-formed case: a known constructor applied to a value of its parameter type, encoded
-   canonically; for Equals cases the reflexivity guard (DeepEqual-compared payloads equal
-   themselves) -- the cases outside the guard are the known finding "equals-deepequal-nonreflexive" *)
+   canonically (for Dict: members that AddTo accepts); for zap.Any the same for the constructor
+   the specification names and for the typed constructor the case compares with, and interface
+   claims that agree with the table; for Equals cases the reflexivity guard (DeepEqual-compared
+   payloads equal themselves) -- the cases outside that guard are the known finding
+   "equals-deepequal-nonreflexive" *)
 Definition canon (s : sx) : bool := sx_eqb (sx_of_val (val_of_sx s)) s.
+Definition known (c : name) : bool := match find_ctor c (t_ctors T) with Some _ => true | None => false end.
+Definition is_some {A} (o : option A) : bool := match o with Some _ => true | None => false end.
+Definition wf_app (stack : bytes) (c : name) (k : bytes) (v : val) : bool :=
+  known c && in_typeb (param_of c) v && is_some (expected stack c (param_of c) k v).
 Definition wf_triple (s : sx) : bool :=
   let '(c, k, v) := dec_triple s in
-  canon (sx_nth s 2) && in_typeb (param_of c) v && payload_self (param_of c) v.
+  canon (sx_nth s 2) && wf_app [] c k v && payload_self (param_of c) v.
 Definition wf (i : sx) : bool :=
   match sx_z (sx_nth i 0) with
-  | 0 => let c := ss (sx_b (sx_nth i 1)) in
-         canon (sx_nth i 3) && in_typeb (param_of c) (val_of_sx (sx_nth i 3))
-  | 1 => canon (sx_nth i 4)
+  | 0 => canon (sx_nth i 3) &&
+         wf_app (sx_b (sx_nth i 4)) (ss (sx_b (sx_nth i 1))) (sx_b (sx_nth i 2)) (val_of_sx (sx_nth i 3))
+  | 1 => let ty := gty_of_sx (sx_nth i 1) in
+         let impls := map (fun s => iface_of_Z (sx_z s)) (sx_l (sx_nth i 2)) in
+         let k := sx_b (sx_nth i 3) in
+         let v := val_of_sx (sx_nth i 4) in
+         canon (sx_nth i 4) && consistentb ty impls &&
+         wf_app [] (spec_any ty impls) k v && wf_app [] (ss (sx_b (sx_nth i 5))) k v
   | _ => wf_triple (sx_nth i 1) && wf_triple (sx_nth i 2)
   end.
